@@ -893,3 +893,32 @@ package compiler
 //@   ensures  first: old(len(def.Disjunction.Branches) == 2 && constantAndType(def.Disjunction.Branches[0], def.Disjunction.Branches[1])) ==> result.0.Default == old(def.Disjunction.Branches[0].Scalar.Value) && result.0.Kind == ast.KindScalar && result.0.Scalar == old(def.Disjunction.Branches[1].Scalar)
 //@   ensures  second: old(len(def.Disjunction.Branches) == 2 && constantAndType(def.Disjunction.Branches[1], def.Disjunction.Branches[0])) ==> result.0.Default == old(def.Disjunction.Branches[1].Scalar.Value) && result.0.Kind == ast.KindScalar && result.0.Scalar == old(def.Disjunction.Branches[0].Scalar)
 //@   ensures  other: !old(len(def.Disjunction.Branches) == 2 && (constantAndType(def.Disjunction.Branches[0], def.Disjunction.Branches[1]) || constantAndType(def.Disjunction.Branches[1], def.Disjunction.Branches[0]))) ==> result.0 == def
+//
+// C05 - unspec renames the object `spec` of a schema; references, constant references and the entry point
+// follow through ONE lookup (newNameFor: the first recorded rename of that package and name) - a reference
+// it finds is renamed to exactly the recorded new name, any other is left as it was.
+//@ func (*Unspec).newNameFor
+//@   property C05
+//@   pure
+//@   requires pass != nil
+//@   modifies nothing
+//@   ensures  found: result.1 ==> (exists r: int :: 0 <= r && r < len(pass.renamed) && pass.renamed[r].pkg == pkg && pass.renamed[r].from == name && result.0 == pass.renamed[r].to)
+//@   ensures  absent: !result.1 ==> (forall r: int :: 0 <= r && r < len(pass.renamed) ==> !(pass.renamed[r].pkg == pkg && pass.renamed[r].from == name))
+//@   loop 0:
+//@     invariant none: forall r: int :: 0 <= r && r <= $i ==> !(pass.renamed[r].pkg == pkg && pass.renamed[r].from == name)
+//
+//@ func (*Unspec).processRef
+//@   property C05
+//@   requires pass != nil && def.Kind == ast.KindRef
+//@   modifies def.Ref.ReferredType
+//@   ensures  noerr: result.1 == nil && result.0 == def
+//@   ensures  renamed: old(call("compiler.(*Unspec).newNameFor", pass, def.Ref.ReferredPkg, def.Ref.ReferredType).1) ==> def.Ref.ReferredType == old(call("compiler.(*Unspec).newNameFor", pass, def.Ref.ReferredPkg, def.Ref.ReferredType).0)
+//@   ensures  untouched: !old(call("compiler.(*Unspec).newNameFor", pass, def.Ref.ReferredPkg, def.Ref.ReferredType).1) ==> def.Ref.ReferredType == old(def.Ref.ReferredType)
+//
+//@ func (*Unspec).processConstantRef
+//@   property C05
+//@   requires pass != nil && def.Kind == ast.KindConstantRef
+//@   modifies def.ConstantReference.ReferredType
+//@   ensures  noerr: result.1 == nil && result.0 == def
+//@   ensures  renamed: old(call("compiler.(*Unspec).newNameFor", pass, def.ConstantReference.ReferredPkg, def.ConstantReference.ReferredType).1) ==> def.ConstantReference.ReferredType == old(call("compiler.(*Unspec).newNameFor", pass, def.ConstantReference.ReferredPkg, def.ConstantReference.ReferredType).0)
+//@   ensures  untouched: !old(call("compiler.(*Unspec).newNameFor", pass, def.ConstantReference.ReferredPkg, def.ConstantReference.ReferredType).1) ==> def.ConstantReference.ReferredType == old(def.ConstantReference.ReferredType)
